@@ -121,10 +121,11 @@ where
 
     fn gen_validation_error_type(
         type_name: &TypeName,
+        inner_type: &Self::InnerType,
         error_type_path: &ErrorTypePath,
         validators: &[Self::Validator],
     ) -> TokenStream {
-        gen_validation_error_type(type_name, error_type_path, validators)
+        gen_validation_error_type(type_name, inner_type, error_type_path, validators)
     }
 
     fn gen_traits(
